@@ -3,11 +3,29 @@
 
    CArp: one ARP packet injected into a fresh real stack (recording link endpoint, capability
    ResolutionRequired), with what the implementation did: frames handed to the link endpoint and
-   the answers of Stack.GetLinkAddress for a few addresses afterwards. *)
+   the answers of Stack.GetLinkAddress for a few addresses afterwards.
+
+   CCache: one history on a real linkAddrCache (built through the overlay-added constructor; ring
+   of N = 512, ageLimit [age] and resolutionTimeout [timeout] in microseconds, [attempts]); every
+   event carries the time it was executed at (microseconds since the start of the history) and what
+   the implementation returned / which wakers it asserted / which done channels it closed.
+   Keys and link addresses are integers (0 = the zero FullAddress / the empty link address); key
+   255 is the one the test resolver answers statically (with 999).  Done channels are labelled by
+   the driver in order of first appearance; ETimer is a checkLinkRequest made by the cache's own
+   resolver goroutine ([requested] = it sent another request afterwards). *)
 From Coq Require Import ZArith Bool List.
-From NP Require Import Model.Bytes Model.Arp.
+From NP Require Import Model.Bytes Model.Arp Model.LinkCache.
 Import ListNotations.
 Open Scope Z_scope.
+
+Inductive cev :=
+| EAdd (now k v : Z) (notified closed : list Z) (panicked : bool)
+(* res: 0 = no resolver, 1 = the test resolver; r: 0 address [val], 1 ErrNoLinkAddress,
+   2 ErrWouldBlock with done channel label [val], 3 another error, 9 panic *)
+| EGet (now k res w r val : Z) (notified closed : list Z)
+| ECheck (now k att : Z) (stop : bool) (notified closed : list Z) (panicked : bool)
+| ERemove (now k w : Z)
+| ETimer (now k att : Z) (requested : bool) (notified closed : list Z).
 
 Inductive case :=
 (* locals: IPv4 addresses of the NIC; myMAC: the link endpoint's address; srcMAC: link-layer source
@@ -16,7 +34,9 @@ Inductive case :=
    panicked: the stack panicked; frames: (ethertype, bytes, link destination) of every frame
    emitted; lookups: (ip, found, mac) answers of GetLinkAddress after the injection *)
 | CArp (locals : list (list Z)) (myMAC srcMAC : list Z) (arpOn : bool) (first : list Z) (total : Z)
-       (panicked : bool) (frames : list (Z * list Z * list Z)) (lookups : list (list Z * bool * list Z)).
+       (panicked : bool) (frames : list (Z * list Z * list Z)) (lookups : list (list Z * bool * list Z))
+(* nreq: LinkAddressRequest calls seen by the test resolver; next: the cache's ring index at the end *)
+| CCache (N age attempts timeout : Z) (evs : list cev) (nreq next : Z).
 
 Definition bneq (a b : bool) : Z := if Bool.eqb a b then 0 else 1.
 Definition zneq (a b : Z) : Z := if a =? b then 0 else 1.
